@@ -99,11 +99,12 @@ class Sched:
             return lock.owner is None or lock.owner == name
         return True
 
-    def step(self, name):
+    def step(self, name, force=False):
         """Run thread `name` for one step.  Returns the operation executed, or None for a stutter
-        (thread finished, or blocked on a lock held by somebody else)."""
+        (thread finished, or blocked on a lock held by somebody else).  `force` runs a blocked acquire
+        anyway (only meaningful for lock shims that then fail with a timeout)."""
         st = self.threads[name]
-        if not self.enabled(name):
+        if st.status == 'done' or (not force and not self.enabled(name)):
             return None
         op = st.pending
         st.steps += 1
@@ -292,6 +293,35 @@ class InstrDict(dict):
     def __iter__(self):
         self._y('iter')
         return dict.__iter__(self)
+
+    # whole-table reads / writes a rewritten caller may use instead of the ones above
+    def keys(self):
+        self._y('iter')
+        return dict(dict.items(self)).keys()
+
+    def items(self):
+        self._y('iter')
+        return dict(dict.items(self)).items()
+
+    def values(self):
+        self._y('iter')
+        return dict(dict.items(self)).values()
+
+    # `__len__` is deliberately not a yield point: `list(d)` asks for it as a length hint right after
+    # `__iter__`, and a plain dict answers both atomically.
+
+    def update(self, *a, **k):
+        new = dict(*a, **k)
+        for key, value in new.items():          # one shared write per key
+            self[key] = value
+
+    def popitem(self):
+        self._y('popitem')
+        return dict.popitem(self)
+
+    def clear(self):
+        self._y('clear')
+        return dict.clear(self)
 
     def raw(self):
         return dict(dict.items(self))
